@@ -26,9 +26,7 @@ pub fn meta(p: &PDB) -> Vec<Sx> {
         l(p.mtrix().map(|m| l(vec![z(m.serial_number as i128), mat(&m.transformation), b(m.contained)])).collect()),
     ]
 }
-pub fn file(p: &PDB) -> Sx {
-    let mut v = meta(p);
-    v.push(snap::pdb(p, &snap::atom));
+pub fn dbrefs(p: &PDB) -> Sx {
     let mut dbs = Vec::new();
     for (mi, m) in p.models().enumerate() {
         for (ci, c) in m.chains().enumerate() {
@@ -59,7 +57,12 @@ pub fn file(p: &PDB) -> Sx {
             }
         }
     }
-    v.push(l(dbs));
+    l(dbs)
+}
+pub fn file(p: &PDB) -> Sx {
+    let mut v = meta(p);
+    v.push(snap::pdb(p, &snap::atom));
+    v.push(dbrefs(p));
     let atoms: Vec<&Atom> = p.atoms().collect();
     let idx = |a: &Atom| atoms.iter().position(|x| std::ptr::eq(*x, a)).map_or(-1, |k| k as i128);
     v.push(l(p.bonds().map(|(a, c, _)| l(vec![z(idx(a)), z(idx(c))])).collect()));
@@ -107,7 +110,7 @@ pub fn read_obs_format(text: &[u8], format: Format, opts: usize, level: usize) -
 pub fn run(seed: u64, count: usize, _thorough: bool, out: &mut Out) {
     let mut rng = Rng::new(seed);
     for i in 0..count {
-        let cfg = Cfg { metadata: i % 2 == 0, wraps: i % 5 == 0, blank_chains: true };
+        let cfg = Cfg { metadata: i % 2 == 0, wraps: i % 5 == 0, blank_chains: true, annotations: i % 5 != 0 };
         let recs = pdbgen::records(&mut rng, &cfg);
         let text = pdbgen::text(&mut rng, &recs);
         let n_atoms = recs.iter().filter(|r| matches!(r, Rec::Atom(_))).count();
@@ -122,6 +125,7 @@ pub fn run(seed: u64, count: usize, _thorough: bool, out: &mut Out) {
                 // the property: the structure and metadata are what the records state
                 let mut v = meta(&p);
                 v.push(snap::pdb(&p, &snap::atom));
+                v.push(dbrefs(&p));
                 out.case("C01", call("denote", vec![l(recs.iter().map(pdbgen::rec_sx).collect())]), l(v), "prop:records", n_atoms > 1);
                 out.count(&format!("accepted-level{level}"));
             } else {
